@@ -162,6 +162,26 @@ Theorem C04_env_second_start_quiet :
     rescan_env_steps (rescan_env_store true vals cur s) cur s' = [].
 Proof. exact env_second_start_quiet. Qed.
 
+(* The input digest of the skip / validate check, the digest stored after a run and the command itself
+   take the values of the tracked variables from the same mapping (generated from
+   Executor._compute_inp_step_hash, _compute_full_step_hash, base_env, _run_command): in an unchanged
+   environment the check recomputes exactly the recorded ingredients, also for variables the director
+   injects or overrides (SOURCE_DATE_EPOCH, STEPUP_ROOT, STEPUP_BUILD_LOG_LEVEL). *)
+Theorem C04_skip_check_reads_the_environment_of_the_run :
+  forall (os_env infra : str -> option N) (names : list str),
+    digest_env gen_digest_env_source_check os_env infra names =
+    digest_env gen_digest_env_source_stored os_env infra names /\
+    digest_env gen_digest_env_source_stored os_env infra names =
+    digest_env gen_command_env_source os_env infra names.
+Proof. exact digest_env_consistent. Qed.
+
+(* the two sources differ exactly on the variables the director injects or overrides *)
+Example C04_env_sources_differ_on_injected_variables :
+  let os_env := fun _ : str => None in
+  let infra := fun _ : str => Some 315532800 in
+  digest_env 1 os_env infra [[83]] <> digest_env 2 os_env infra [[83]].
+Proof. vm_compute. discriminate. Qed.
+
 (* ---- the cone ---------------------------------------------------------------------------- *)
 
 (* Applying the EXTERNAL re-hash results of source files (CONFIRMED or MISSING static files) to ANY
